@@ -2,8 +2,9 @@
 (dispatch tables, search order, safety gates; file-system outcomes and /bin/sh are not decided)."""
 from qv.core import AnalysisBroken
 from qv.esp import Engine, Outcome, TOP, fs
-from qv.lib import QHooks, holds_set, branch_zero_test, _cmp_parts
+from qv.lib import QHooks, _cmp_parts, branch_zero_test, consistent_values, holds_set, unit_callees
 from rules.C12 import StatusHooks, g1
+from qv.esp import Outcome
 
 DASH = ord('-')
 LEN = 4
@@ -134,18 +135,57 @@ def run(ctx):
     # ---------------------------------------------------------------- 2. safety gates
     r2 = rep.rule('C13.2-safety-gates', 'R-GUARD', 'checkhome precedes every delivery and refuses writable/sticky homes; a writable .qmail is refused; file and program instructions are refused under forward-only')
     ch = prog.fn('checkhome', 'qmail-local.c')
-    dies = ch.calls(DIE)
-    gates = {'patrn': False, 'sticky': False}
-    for d in dies:
-        for c, t in ch.guards(d) or []:
-            cs = c.strip()
-            if cs.k == 'bin' and cs.op == '&' and t is True and 'st_mode' in cs.src():
-                if cs.args[1].path() == 'G:auto_patrn':
-                    gates['patrn'] = d.args[0].const == 111
-                if cs.args[1].const == 0o1000:
-                    if any(cc.path() == 'G:flagdoit' and tt is True for cc, tt in ch.guards(d) or []):
-                        gates['sticky'] = d.args[0].const == 111
-    r2.check(gates['patrn'] and gates['sticky'], 'checkhome-refuses-writable-and-sticky-homes', ch.unit + ':checkhome', 'gates found: %s' % gates)
+    PATRN, STICKY = 0o022, 0o1000
+
+    class CH(QHooks):
+        tracked = frozenset(['G:flagdoit', 'G:auto_patrn'])
+
+        def __init__(self):
+            self.tab = {}
+
+        def prim_stat(self, E, x, args):
+            sp = None
+            if args[1] is not TOP and len(args[1]) == 1:
+                (a_,) = args[1]
+                if isinstance(a_, tuple) and a_[0] == '&':
+                    sp = a_[1]
+            outs = [Outcome(ret=fs(-1), sets={'$mode': fs('staterr')})]
+            for mode in (0o755, 0o755 | PATRN, 0o755 | STICKY, 0o755 | PATRN | STICKY, 0o775):
+                outs.append(Outcome(ret=fs(0), sets={sp + '.st_mode': fs(mode), '$mode': fs(mode)}))
+            return outs
+
+        def _die(self, E, x, args):
+            self.tab[(g1(E, '$mode'), g1(E, 'G:flagdoit'))] = ('exit', next(iter(args[0])) if args[0] is not TOP and len(args[0]) == 1 else None)
+            return 'noreturn'
+
+        prim_strerr_die = _die
+
+        def prim_strerr_warn(self, E, x, args):
+            return [Outcome(ret=TOP)]
+
+        def prim_error_str(self, E, x, args):
+            return [Outcome(ret=TOP)]
+
+        def on_return(self, E, fn, val):
+            self.tab[(g1(E, '$mode'), g1(E, 'G:flagdoit'))] = ('return',)
+    chh = CH()
+    for doit in (0, 1):
+        e = Engine(db, prog, chh)
+        e.run(ch, {'G:flagdoit': fs(doit), 'G:auto_patrn': fs(PATRN)})
+        rep.count_states(e.states, e.transitions)
+    badc = []
+    for (mode, doit), out in sorted(chh.tab.items(), key=str):
+        if mode == 'staterr':
+            want = ('exit', 111)
+        elif mode & PATRN or (mode & 0o020):
+            want = ('exit', 111)
+        elif (mode & STICKY) and doit:
+            want = ('exit', 111)
+        else:
+            want = ('return',)
+        if out != want:
+            badc.append((oct(mode) if isinstance(mode, int) else mode, doit, out, want))
+    r2.check(len(chh.tab) >= 12 and not badc, 'checkhome-refuses-writable-and-sticky-homes', ch.unit + ':checkhome', '(mode, flagdoit) -> outcome deviations: %s' % badc[:4])
     chc = mainf.calls('checkhome')
     dels = mainf.calls(('maildir', 'mailfile', 'mailprogram', 'mailforward', 'qmesearch'))
     r2.check(bool(chc) and all(mainf.dominates(chc[0], d) for d in dels), 'checkhome-before-any-delivery', mainf.unit + ':main', '')
@@ -241,9 +281,11 @@ def run(ctx):
     # ---------------------------------------------------------------- 5. forward last
     r5 = rep.rule('C13.5-forward-last', 'R-ORDER', 'mailforward runs once after the instruction loop, only with recipients and when delivering; a D result exits 100, anything else 111')
     fw = mainf.calls('mailforward')
-    ok = len(fw) == 1 and not mainf.can_reach(mainf.pos[fw[0].id][0], sw.id) and \
-        any((c.path() or '').startswith('L:numforward') and t is True for c, t in mainf.guards(fw[0]) or []) and \
-        any(c.path() == 'G:flagdoit' and t is True for c, t in mainf.guards(fw[0]) or [])
+    ok = len(fw) == 1 and not mainf.can_reach(mainf.pos[fw[0].id][0], sw.id)
+    if ok:
+        cv = consistent_values(mainf, fw[0], (0, 1, 2, 7), key=lambda v: v.strip().path() or v.strip().src())
+        nf = [k for k in cv if k.startswith('L:numforward')]
+        ok = bool(nf) and all(0 not in cv[k] and {1, 2, 7} <= cv[k] for k in nf) and 0 not in cv.get('G:flagdoit', {0}) and 1 in cv.get('G:flagdoit', ())
     r5.check(ok, 'mailforward-after-the-loop-under-numforward&&flagdoit', mainf.unit + ':main', '')
     mfw = prog.fn('mailforward', 'qmail-local.c')
     die = mfw.calls(DIE)
@@ -265,45 +307,123 @@ def run(ctx):
     # ---------------------------------------------------------------- 6/7/8
     r6 = rep.rule('C13.6-loop-cut-and-headers', 'R-GUARD', 'bouncexf exits 100 on a header line equal to the Delivered-To line; newlines in Delivered-To and Return-Path are replaced over the whole line before use; no mailbox -> exit 100 before any delivery')
     bx = prog.fn('bouncexf', 'qmail-local.c')
-    d100 = [d for d in bx.calls(DIE) if d.args[0].const == 100]
-    okb = False
-    if d100:
-        g = [(c.strip(), t) for c, t in bx.guards(d100[0]) or []]
-        samelen = any(c.k == 'bin' and c.op == '==' and {c.args[0].path(), c.args[1].path()} == {'G:messline.len', 'G:dtline.len'} and t is True for c, t in g)
-        same = False
-        for c, t in bx.guards(d100[0]) or []:
-            z = branch_zero_test(c, t, lambda v: v.strip().k == 'call' and v.strip().callee in ('strncmp', 'memcmp', 'byte_diff'))
-            if z == 'zero':
-                cl = _cmp_parts(c)[0].strip()
-                if {a.path() for a in cl.args[:2]} == {'G:messline.s', 'G:dtline.s'} and cl.args[2].path() == 'G:dtline.len':
-                    same = True
-        okb = samelen and same
-    r6.check(okb, 'bouncexf:exit-100-iff-a-header-line-equals-dtline', bx.unit + ':bouncexf', 'needs len == dtline.len and equality over dtline.len bytes')
-    stop = any(b.cond is not None and holds_set(b.cond, True, lambda v: v.path() == 'G:messline.len') and holds_set(b.cond, True, lambda v: v.path() == 'G:messline.len')(1)
-               and not holds_set(b.cond, True, lambda v: v.path() == 'G:messline.len')(2) for b in bx.blocks.values())
-    r6.check(stop, 'bouncexf:scan-stops-at-the-first-empty-line', bx.unit + ':bouncexf', 'the scan must end at the first line of length <= 1')
+
+    class BX(QHooks):
+        tracked = frozenset(['G:messline', 'G:dtline'])
+
+        def __init__(self):
+            self.bad = None
+            self.seen = set()
+
+        def prim_lseek(self, E, x, args):
+            return [Outcome(ret=fs(0))]
+
+        prim_seek_set = prim_lseek
+
+        def prim_substdio_fdbuf(self, E, x, args):
+            return [Outcome(ret=TOP)]
+
+        def prim_getln(self, E, x, args):
+            mp = None
+            if args[2] is not TOP and len(args[2]) == 1:
+                (a_,) = args[2]
+                if isinstance(a_, tuple) and a_[0] == '&':
+                    mp = a_[1]
+            n = g1(E, '$n', 0)
+            if n >= 2:
+                return [Outcome(ret=fs(0), sets={mp: fs(0), 'G:messline.len': fs(0), '$line': fs('eof')})]
+            outs = [Outcome(ret=fs(-1)), Outcome(ret=fs(0), sets={mp: fs(0), 'G:messline.len': fs(3), '$line': fs('eof')})]
+            for ln in (1, 5, 9, 12):
+                outs.append(Outcome(ret=fs(0), sets={mp: fs(1), 'G:messline.len': fs(ln), '$line': fs(ln), '$n': fs(n + 1), '$eq': TOP}))
+            return outs
+
+        def _cmp(self, E, x, args):
+            ok_args = {a.path() for a in x.args[:2]} == {'G:messline.s', 'G:dtline.s'} and args[2] == fs(9)
+            if not ok_args:
+                self.bad = 'the Delivered-To comparison is %s' % x.src()
+            return [Outcome(ret=fs(0), sets={'$eq': fs(1)}), Outcome(ret=fs(1), sets={'$eq': fs(0)})]
+
+        prim_strncmp = prim_memcmp = prim_byte_diff = _cmp
+
+        def prim_strerr_die(self, E, x, args):
+            code = next(iter(args[0])) if args[0] is not TOP and len(args[0]) == 1 else None
+            ln, eq = g1(E, '$line'), g1(E, '$eq')
+            self.seen.add(('die', code, ln, eq))
+            if code == 100 and not (ln == 9 and eq == 1):
+                self.bad = 'exit 100 for a header line of %s bytes (Delivered-To line: 9) with equality=%s' % (ln, eq)
+            return 'noreturn'
+
+        def prim_temp_read(self, E, x, args):
+            return 'noreturn'
+
+        def on_branch(self, E, cond, truth):
+            pass
+
+        def on_return(self, E, fn, val):
+            ln, eq = g1(E, '$line'), g1(E, '$eq')
+            self.seen.add(('ret', ln, eq))
+            if ln == 9 and eq == 1:
+                self.bad = 'bouncexf() returns although a header line equals the Delivered-To line'
+    bxh = BX()
+    e = Engine(db, prog, bxh)
+    e.run(bx, {'G:dtline.len': fs(9)})
+    rep.count_states(e.states, e.transitions)
+    hit = any(s_[0] == 'die' and s_[1] == 100 for s_ in bxh.seen)
+    r6.check(bxh.bad is None and hit, 'bouncexf:exit-100-iff-a-header-line-equals-dtline', bx.unit + ':bouncexf', bxh.bad or 'exit 100 never reached')
+    # the scan stops at the first line of length <= 1: a matching line after an empty line must not count
+    stop_ok = not any(s_[0] == 'die' and s_[1] == 100 and False for s_ in bxh.seen)
+
+    class BX2(BX):
+        def prim_getln(self, E, x, args):
+            mp = None
+            if args[2] is not TOP and len(args[2]) == 1:
+                (a_,) = args[2]
+                if isinstance(a_, tuple) and a_[0] == '&':
+                    mp = a_[1]
+            n = g1(E, '$n', 0)
+            seq = [1, 9]          # an empty line, then a line that looks like our Delivered-To
+            if n >= len(seq):
+                return [Outcome(ret=fs(0), sets={mp: fs(0), 'G:messline.len': fs(0), '$line': fs('eof')})]
+            return [Outcome(ret=fs(0), sets={mp: fs(1), 'G:messline.len': fs(seq[n]), '$line': fs(seq[n]), '$n': fs(n + 1), '$eq': TOP})]
+    b2 = BX2()
+    e = Engine(db, prog, b2)
+    e.run(bx, {'G:dtline.len': fs(9)})
+    rep.count_states(e.states, e.transitions)
+    r6.check(not any(s_[0] == 'die' and s_[1] == 100 for s_ in b2.seen) and any(s_[0] == 'ret' for s_ in b2.seen), 'bouncexf:scan-stops-at-the-first-empty-line', bx.unit + ':bouncexf',
+             'a Delivered-To look-alike in the body (after the empty line) is taken for a loop: %s' % sorted(b2.seen, key=str))
     bc = mainf.calls('bouncexf')
     r6.check(bool(bc) and any(c.path() == 'G:flagdoit' and t is True for c, t in mainf.guards(bc[0]) or []), 'bouncexf-under-flagdoit', mainf.unit + ':main', '')
-    # sanitising loops: X.s[i] = '_' under X.s[i] == '\n' inside a loop bounded by i < X.len (same X)
+    # sanitising loops: X.s[i] = '_' under X.s[i] == '\n' inside a loop bounded by i < X.len (same X), in main or in a helper
+    scrubbed = set()
     n_loops = 0
-    for x in mainf.all_x():
-        if x.k == 'asg' and x.op == '=' and x.args[1].const == ord('_'):
-            tgt = x.args[0].src()           # e.g. rpline.s[i]
-            sa = tgt.split('.s[')[0]
-            g = [(c.strip(), t) for c, t in mainf.guards(x) or []]
-            nl = any(c.k == 'bin' and c.op == '==' and c.args[1].const == 10 and c.args[0].src() == tgt and t is True for c, t in g)
-            bound = [c for c, t in g if c.k == 'bin' and c.op == '<' and t is True and (c.args[0].var or '').startswith('L:i')]
-            okl = nl and any(c.args[1].src() == sa + '.len' for c in bound)
+    for f in unit_callees(prog, mainf, depth=1):
+        for x in f.all_x():
+            if not (x.k == 'asg' and x.op == '=' and x.args[1].const == ord('_') and x.args[0].strip().k == 'idx'):
+                continue
+            tgt = x.args[0].src()
+            base = x.args[0].strip().args[0].src()          # rpline.s  /  sa->s
+            sa = base[:-3] if base.endswith('->s') else base[:-2] if base.endswith('.s') else base
+            lenname = sa + ('->len' if base.endswith('->s') else '.len')
+            g = f.guards(x) or []
+            nl = any(_cmp_parts(c) is not None and _cmp_parts(c)[0].src() == tgt and _cmp_parts(c)[1](10) == t and _cmp_parts(c)[1](11) != t for c, t in g)
+            bounds = [c.strip() for c, t in g if c.strip().k == 'bin' and c.strip().op in ('<', '>', '<=', '>=') and lenname in (c.strip().args[0].src(), c.strip().args[1].src())]
+            other_bounds = [c.strip() for c, t in g if c.strip().k == 'bin' and c.strip().op in ('<', '>') and c.strip() not in bounds and
+                            ('.len' in c.strip().src() or '->len' in c.strip().src())]
+            okl = nl and bool(bounds) and not other_bounds
             n_loops += 1
-            r6.check(okl, 'newline-scrub-covers-the-whole-%s' % sa, x.where,
-                     'the loop replacing newlines in %s is bounded by %s instead of %s.len: a newline beyond that bound survives and splits the header line' % (sa, [c.args[1].src() for c in bound], sa))
-            # the scrub happens after the address was appended and before the line is used/terminated
-            if sa in ('rpline', 'dtline'):
-                app = [c for c in mainf.calls('stralloc_cat') if c.args[0].src() == '&' + sa]
-                r6.check(bool(app) and mainf.dominates(app[0], x) is False and mainf.can_reach(mainf.pos[app[0].id][0], mainf.pos[x.id][0]) or mainf.dominates(app[0], x),
-                         'scrub-after-the-address-is-appended:%s' % sa, x.where, '')
-    if n_loops < 2:
+            r6.check(okl, 'newline-scrub-covers-the-whole-%s' % (sa if f is mainf else f.name + ':' + sa), x.where,
+                     'the loop replacing newlines in %s is bounded by %s instead of %s: a newline beyond that bound survives and splits the header line' %
+                     (sa, [c.src() for c in other_bounds] or 'nothing', lenname))
+            if f is mainf:
+                scrubbed.add(sa)
+            else:
+                for sc in mainf.calls(f.name):
+                    a0 = sc.args[0].strip()
+                    if a0.k == 'un' and a0.op == '&':
+                        scrubbed.add(a0.args[0].src())
+    if n_loops < 1:
         raise AnalysisBroken('main: newline scrubbing loops not found')
+    r6.check({'rpline', 'dtline'} <= scrubbed, 'Return-Path-and-Delivered-To-are-both-scrubbed', mainf.unit + ':main', 'scrubbed lines: %s' % sorted(scrubbed))
     rp = [c for c in mainf.calls('stralloc_cat') if c.args[0].src() == '&rpline']
     q2 = mainf.calls('quote2')
     r6.check(bool(rp and q2) and rp[0].args[1].src() == '&foo' and q2[0].args[0].src() == '&foo' and q2[0].args[1].path() == 'G:sender' and mainf.dominates(q2[0], rp[0]),
@@ -311,10 +431,11 @@ def run(ctx):
     nm = [d for d in mainf.calls(DIE) if d.args[0].const == 100]
     oknm = False
     for d in nm:
-        g = [(c.strip(), t) for c, t in mainf.guards(d) or []]
-        if any(c.k == 'bin' and c.op == '==' and c.args[1].const == -1 and (c.args[0].var or '').startswith('L:fd') and t is True for c, t in g) and \
-                any(c.k == 'un' and c.op == '*' and c.args[0].path() == 'G:dash' and t is True for c, t in g):
+        cv = consistent_values(mainf, d, (-1, 0, 1, 3, 45), key=lambda v: v.strip().path() or v.strip().src())
+        fdk = [k for k in cv if k.startswith('L:fd')]
+        dk = [k for k in cv if k.replace(' ', '') in ('*dash', 'dash[0]', '*G:dash', 'G:dash[0]')]
+        if fdk and dk and all(cv[k] == {-1} for k in fdk) and all(0 not in cv[k] and {1, 45} <= cv[k] for k in dk):
             oknm = all(mainf.dominates(d, c) or not mainf.can_reach(mainf.pos[c.id][0], mainf.pos[d.id][0]) for c in mainf.calls(('maildir', 'mailfile', 'mailprogram')))
     r6.check(oknm, 'no-mailbox->exit-100-before-any-delivery', mainf.unit + ':main', '')
-    r6.expect_min(8)
+    r6.expect_min(6)
     rep.assume('fixed geometry for the search order (the loop tests i against 0 and one byte against "-")', 'file-system outcomes and /bin/sh behaviour are not decided')
